@@ -751,7 +751,7 @@ fn parse_args() -> Args {
         keep: false,
         compare: false,
         template: PathBuf::from(concat!(env!("CARGO_MANIFEST_DIR"), "/batch_template")),
-        root: PathBuf::from("/verif/target/batch"),
+        root: PathBuf::from(std::env::var("VERIF_TARGET_DIR").map(|d| format!("{d}/batch")).unwrap_or_else(|_| "/verif/target/batch".into())),
     };
     let mut i = 2;
     while i < argv.len() {
